@@ -22,7 +22,7 @@ CONSTANTS Scope,      \* "quick" | "thorough" | "gen3"
           ReadMode,   \* "full" | "once"
           Emit
 \* body length of each message; the client splits the stream at up to MaxCuts positions
-Bodies  == IF Scope = "thorough" THEN <<2, 3, 2>> ELSE <<2, 2, 2>>
+Bodies  == IF Scope = "thorough" THEN <<2, 3, 2, 2>> ELSE <<2, 2, 2, 2>>
 MaxCuts == IF Scope = "quick" THEN 2 ELSE 3
 
 HLen == 2
@@ -44,7 +44,11 @@ VARIABLES cuts,     \* set of positions after which the client ends a write (cho
           decoded   \* bodies handed to the handler
 vars == <<cuts, sent, pipe, buf, mode, need, cur, decoded>>
 
-Init == /\ cuts \in {c \in SUBSET (1..(L - 1)) : Cardinality(c) <= MaxCuts}
+\* (built constructively: filtering SUBSET (1..L-1) by size would enumerate 2^(L-1) sets)
+P == 1..(L - 1)
+CutSets == {{}} \cup {{a} : a \in P} \cup {{a, b} : a \in P, b \in P}
+           \cup (IF MaxCuts >= 3 THEN {{a, b, c} : a \in P, b \in P, c \in P} ELSE {})
+Init == /\ cuts \in CutSets
         /\ sent = 0 /\ pipe = <<>> /\ buf = <<>> /\ mode = "hdr" /\ need = 0 /\ cur = 1 /\ decoded = <<>>
 
 \* the client writes up to the next cut (or the end)
